@@ -36,6 +36,7 @@ def obligations(tier):
     obs = []
     for i, s in enumerate(SUBSETS):
         obs.append(Ob(f"root_subset{i}_{''.join(map(str, s))}", "E1", "h_template", {"template": "root", "subset": list(s), "mode": "flags"}, 900, f"root template, images radio/application/top = {s}: default/custom MPI names symbolic, child envelopes with symbolic sequence numbers", weight=100))
+    obs.append(Ob("root_history_children_regenerated", "E1", "h_template", {"template": "root", "subset": [1, 1, 0], "mode": "flags", "history": True}, 1500, "root template built twice in one process; between the builds every child envelope is regenerated at the SAME path with another (symbolic) sequence number: the second root verifies and embeds the new children", weight=160))
     obs.append(Ob("root_variables", "E1", "h_template", {"template": "root", "subset": [1, 1, 1], "mode": "vars"}, 900, "root template, all images: sequence-number and version variable classes (3x3) solver-chosen", weight=100))
     obs.append(Ob("top_template", "E1", "h_template", {"template": "top", "subset": None, "mode": "flags"}, 900, "Nordic top template: child envelopes with symbolic sequence numbers", weight=100))
     obs.append(Ob("top_variables", "E1", "h_template", {"template": "top", "subset": None, "mode": "vars"}, 900, "Nordic top template: sequence-number and version variable classes (3x3) solver-chosen", weight=100))
@@ -61,9 +62,10 @@ def config_data(template, subset, mpi_custom, seq_var, ver_var):
                 data[key] = {"name": NAMES[key]}
                 present.append(key)
         if mpi_custom:
+            n = CUSTOM_NAMES[int(mpi_custom) - 1]
             data["sysbuild"]["config"].update(
-                SB_CONFIG_SUIT_MPI_ROOT_VENDOR_NAME="acme.example", SB_CONFIG_SUIT_MPI_ROOT_CLASS_NAME="acme_root", SB_CONFIG_SUIT_MPI_APP_LOCAL_1_VENDOR_NAME="acme.example",
-                SB_CONFIG_SUIT_MPI_APP_LOCAL_1_CLASS_NAME="acme_app", SB_CONFIG_SUIT_MPI_RAD_LOCAL_1_VENDOR_NAME="radio.example", SB_CONFIG_SUIT_MPI_RAD_LOCAL_1_CLASS_NAME="acme_rad",
+                SB_CONFIG_SUIT_MPI_ROOT_VENDOR_NAME=n["root"][0], SB_CONFIG_SUIT_MPI_ROOT_CLASS_NAME=n["root"][1], SB_CONFIG_SUIT_MPI_APP_LOCAL_1_VENDOR_NAME=n["application"][0],
+                SB_CONFIG_SUIT_MPI_APP_LOCAL_1_CLASS_NAME=n["application"][1], SB_CONFIG_SUIT_MPI_RAD_LOCAL_1_VENDOR_NAME=n["radio"][0], SB_CONFIG_SUIT_MPI_RAD_LOCAL_1_CLASS_NAME=n["radio"][1],
             )
         own = "APP_ROOT"
     else:
@@ -82,11 +84,19 @@ def config_data(template, subset, mpi_custom, seq_var, ver_var):
     return data, present
 
 
+# custom MPI name sets: 1 = plain names, every role its own vendor/class; 2 = names with characters that markup/escaping layers
+# treat specially (they are ordinary characters for a UUID name)
+CUSTOM_NAMES = [
+    {"radio": ("radio.example", "acme_rad"), "application": ("acme.example", "acme_app"), "root": ("root.example", "acme_root")},
+    {"radio": ("r&d.example", "acme<rad>"), "application": ("a&b.example", "app>1"), "root": ("x<y.example", "root&co")},
+]
+
+
 def expected_classes(template, mpi_custom):
     if template == "top":
         return None
     if mpi_custom:
-        return {"radio": ("radio.example", "acme_rad"), "application": ("acme.example", "acme_app"), "top": ("nordicsemi.com", "nRF54H20_nordic_top"), "root": ("acme.example", "acme_root")}
+        return dict(CUSTOM_NAMES[int(mpi_custom) - 1], top=("nordicsemi.com", "nRF54H20_nordic_top"))
     return {"radio": ("nordicsemi.com", "nRF54H20_sample_rad"), "application": ("nordicsemi.com", "nRF54H20_sample_app"), "top": ("nordicsemi.com", "nRF54H20_nordic_top"), "root": ("nordicsemi.com", "nRF54H20_sample_root")}
 
 
@@ -169,7 +179,7 @@ def check_wiring(desc, out_bytes, present, classes, loads, dumps, hash_of_manife
     return ok
 
 
-def h_template(template="root", subset=None, mode="flags", exclude=()):
+def h_template(template="root", subset=None, mode="flags", history=False, exclude=()):
     from vlib import suitenv
 
     e = suitenv.setup()
@@ -188,22 +198,30 @@ def h_template(template="root", subset=None, mode="flags", exclude=()):
         suitenv.reset(e)
         L = SymLeaves(chx)
         if mode == "flags":
-            mpi_custom = bool(chx.sym_bool("mpi_custom")) if template == "root" else False
+            mpi_custom = chx.pick("mpi_custom", [0, 1, 2]) if (template == "root" and not history) else 0
             seq_var, ver_var = "none", "none"
             with NoTracing():
                 chx._reg("seq_var", seq_var)
                 chx._reg("ver_var", ver_var)
         else:
-            mpi_custom = False
+            mpi_custom = 0
             seq_var = chx.pick("seq_var", ["own", "default", "none"])
             ver_var = chx.pick("ver_var", ["own", "default", "none"])
         data, present = config_data(template, subset, mpi_custom, seq_var, ver_var)
         with NoTracing():
             text = B.render_template(tpath, data)
             desc = yaml.safe_load(text)
+        import copy
+
+        if history:
+            # an earlier build in the same process, with other children at the same paths
+            for p in present:
+                e.fs.add("artifacts/" + NAMES[p] + ".suit", InputOutputMixin.prepare_suit_data(_child_desc(L, p + "_old", False)))
+            with NoTracing():
+                desc_old = copy.deepcopy(desc)
+            InputOutputMixin.prepare_suit_data(desc_old)
         for p in present:
             e.fs.add("artifacts/" + NAMES[p] + ".suit", InputOutputMixin.prepare_suit_data(_child_desc(L, p, p in _sym_children(present, mode))))
-        import copy
 
         with NoTracing():
             desc_in = copy.deepcopy(desc)
@@ -246,13 +264,18 @@ def replay(obligation, params, cex):
     try:
         os.chdir(d)
         os.makedirs("artifacts")
-        mpi_custom = bool(cex.get("mpi_custom", False))
+        mpi_custom = int(cex.get("mpi_custom", 0) or 0)
         seq_var, ver_var = cex.get("seq_var", "none"), cex.get("ver_var", "none")
         data, present = config_data(template, subset, mpi_custom, seq_var, ver_var)
         try:
             desc = yaml.safe_load(B.render_template(tpath, data))
+            if params.get("history"):
+                for p in present:
+                    open("artifacts/" + NAMES[p] + ".suit", "wb").write(InputOutputMixin.prepare_suit_data(_child_desc(L, p + "_old", False)))
+                InputOutputMixin.prepare_suit_data(copy.deepcopy(desc))
             for p in present:
-                open("artifacts/" + NAMES[p] + ".suit", "wb").write(InputOutputMixin.prepare_suit_data(_child_desc(L, p, p in _sym_children(present, params.get("mode", "flags")))))
+                child = _child_desc(L, p, p in _sym_children(present, params.get("mode", "flags")))
+                open("artifacts/" + NAMES[p] + ".suit", "wb").write(InputOutputMixin.prepare_suit_data(child))
             out = InputOutputMixin.prepare_suit_data(copy.deepcopy(desc))
         except Exception as ex:  # noqa
             return dict(reproduced=True, detail=f"rendering/creating raises {type(ex).__name__}: {ex}"[:500])
